@@ -83,7 +83,7 @@ Proof. reflexivity. Qed.
 Lemma total_padded_nonneg tabs : 0 <= total_padded tabs.
 Proof.
   induction tabs as [|[t d] r IH]; [cbn; lia|]. rewrite total_padded_cons. cbn [snd].
-  pose proof (round4_ge (len d) (len_nonneg' d)). lia.
+  pose proof (round4_ge (len d) (len_nonneg' d)). pose proof (len_nonneg' d). lia.
 Qed.
 Lemma total_padded_app a b : total_padded (a ++ b) = total_padded a + total_padded b.
 Proof.
